@@ -1,4 +1,4 @@
-import Yuiv.Model.C11
+import Yuiv.Model.C11New
 import Yuiv.Drv.Loop
 /-
 Driver for C11.  Requests (all numbers are naturals, internal orientation of the PivotFinder):
@@ -17,6 +17,13 @@ Driver for C11.  Requests (all numbers are naturals, internal orientation of the
       explores ALL interleavings of the model (including stale task starts) up to `budget` steps in total and
       checks the invariant (distinct, candidates, `result` = Kahn succeeds and is triangular) in every state.
       reply:  enum ok    |   enum bad <state>
+
+  newstr t ck w2 m n (k (row z p u wt)*k)*n
+      the raw CSC storage of the input matrix (external orientation, `n` columns, per column the stored entries in
+      storage order with what the REAL library answers for `is_zero`/`is_pm_one`/`is_unit`/`c_weight`), the pivot type
+      `t` (0 = Rows, 1 = Cols) and the pivot condition (`ck` 0 = One, 1 = AnyUnit, 2 = Weight(w2/2)).
+      Runs the code model `matrixStrNew` of `MatrixStr::new` (the definition `Props/C11New.lean` is about).
+      reply:  str <m>x<n> ent=<row;row;..> cnd=<..> rw=<w,w,..> cw=<..>     |   str panic
 -/
 namespace Yuiv.Drv.C11
 open Yuiv Yuiv.C11 Yuiv.Drv
@@ -146,6 +153,37 @@ def handleEnum (c : Cur) : Option String := do
     | .error e => some s!"enum {e}"
   | _ => some "enum seq-panic"
 
+/-! `MatrixStr::new` on the raw matrix -/
+
+def natsStr (l : List Nat) : String := ",".intercalate (l.map toString)
+
+def parseCols (c : Cur) : Nat → List (List (Nat × Scl)) → Option (List (List (Nat × Scl)) × Cur)
+  | 0, acc => some (acc.reverse, c)
+  | k + 1, acc => do
+    let (es, c) ← c.tuples 5
+    let col ← es.mapM (fun t => match t with
+      | [i, z, p, u, w] => some (i, (⟨z != 0, p != 0, u != 0, w⟩ : Scl))
+      | _ => none)
+    parseCols c k (col :: acc)
+
+def handleNewStr (c : Cur) : Option String := do
+  let (t, c) ← c.next
+  let (ck, c) ← c.next
+  let (w2, c) ← c.next
+  let (m, c) ← c.next
+  let (n, c) ← c.next
+  let (cols, c) ← parseCols c n []
+  if c.p ≠ c.a.size then none else
+  let t ← (match t with | 0 => some PivType.rows | 1 => some PivType.cols | _ => none)
+  let cond ← (match ck with | 0 => some Cond.one | 1 => some Cond.anyUnit | 2 => some (Cond.weight w2) | _ => none)
+  match matrixStrNew ⟨m, n, cols.toArray⟩ t cond with
+  | .ok s =>
+    let rows := List.range s.nrows
+    let ent := ";".intercalate (rows.map fun i => natsStr (s.ent.getD i []))
+    let cnd := ";".intercalate (rows.map fun i => natsStr ((s.cnd.getD i []).mergeSort (· ≤ ·)))
+    some s!"str {s.nrows}x{s.ncols} ent={ent} cnd={cnd} rw={natsStr s.rowW.toList} cw={natsStr s.colW.toList}"
+  | _ => some "str panic"
+
 def handle (t : List String) : String :=
   match t with
   | cmd :: rest =>
@@ -153,7 +191,8 @@ def handle (t : List String) : String :=
     | none => "bad-request"
     | some nums =>
       let c : Cur := ⟨nums.toArray, 0⟩
-      let r := if cmd = "trace" then handleTrace c else if cmd = "enum" then handleEnum c else none
+      let r := if cmd = "trace" then handleTrace c else if cmd = "enum" then handleEnum c
+        else if cmd = "newstr" then handleNewStr c else none
       r.getD "bad-request"
   | [] => "bad-request"
 
